@@ -12,12 +12,14 @@ package main
 
 import (
 	"fmt"
+	"golang.org/x/net/http2"
 	"math"
 	"net/http"
 	"strings"
 	"sync"
 	"sync/atomic"
 	"time"
+	"verif/internal/h2peer"
 
 	"github.com/anishathalye/porcupine"
 	fingerproxy "github.com/wi1dcard/fingerproxy"
@@ -114,6 +116,24 @@ func oneConn(run *verdict.Run, be *rig.Backend, px *rig.Proxy, clock *int64, ci 
 	nstreams := 20 + r.Intn(80)
 	uniq := uint32(ci)*1000000 + 100000
 	releaseMode := r.Intn(3) // 0: release all at the end, 1: release continuously, 2: release in bursts
+	fillAt := -1
+	if ci%8 == 3 {
+		// fill the connection up to the server's advertised concurrency limit (and three streams beyond, which
+		// are refused): the stream that takes the last free slot is a request like any other
+		if _, ok := c.Peer.WaitFor(0, 20*time.Second, func(e h2peer.Event) bool { return e.Is(http2.FrameSettings) && !e.Ack() }); ok {
+			for _, e := range c.Peer.Events() {
+				if e.Is(http2.FrameSettings) && !e.Ack() {
+					for _, st := range e.Settings {
+						if st.ID == http2.SettingMaxConcurrentStreams && st.Val >= 4 && st.Val <= 1000 {
+							nstreams, releaseMode, fillAt = int(st.Val)+3, 0, int(st.Val)-2
+							run.Add("connections_filled_to_the_concurrency_limit", 1)
+						}
+					}
+					break
+				}
+			}
+		}
+	}
 	relCh := make(chan chan struct{}, nstreams)
 	var relWG sync.WaitGroup
 	relWG.Add(1)
@@ -136,6 +156,13 @@ func oneConn(run *verdict.Run, be *rig.Backend, px *rig.Proxy, clock *int64, ci 
 				c.WindowUpdate(0, uint32(1+r.Intn(1000)))
 			default:
 				c.Priority(uint32(2000001+2*r.Intn(100000)), uint32(r.Intn(50))*2, r.Intn(2) == 0, uint8(uniq))
+			}
+		}
+		if s == fillAt {
+			// the server must have opened every earlier stream (its request is at the gated backend) before
+			// the last free slots are taken, otherwise the limit is never reached
+			for _, q := range reqs {
+				be.Wait(q.tag, 60*time.Second)
 			}
 		}
 		sid := c.Next
@@ -194,6 +221,9 @@ func oneConn(run *verdict.Run, be *rig.Backend, px *rig.Proxy, clock *int64, ci 
 	for _, q := range reqs {
 		if resp, ok := c.Peer.WaitResponse(q.sid, 30*time.Second); !ok || resp.Reset {
 			run.Add("responses_missing", 1)
+			if ok && resp.ResetCode == http2.ErrCodeRefusedStream {
+				run.Add("streams_refused_beyond_the_limit", 1)
+			}
 		}
 	}
 	gmu.Lock()
